@@ -82,8 +82,9 @@ theorem reap_cases (c : Cfg) (n : Node) (mempool : List Bytes) :
 
 /-! ## `produce` -/
 
-theorem publish_absent_none (c : Producer.Cfg) (n : Producer.Node) (hnone : n.store.getBlock (n.store.height + 1) = none) :
-    (publish c n .absent .ok).1 = n ∧ (publish c n .absent .ok).2.1 = [] := by
+theorem publish_absent_none (c : Producer.Cfg) (n : Producer.Node) (ex : ExecResp)
+    (hnone : n.store.getBlock (n.store.height + 1) = none) :
+    (publish c n .absent ex).1 = n ∧ (publish c n .absent ex).2.1 = [] := by
   unfold publish
   split
   · exact ⟨rfl, rfl⟩
@@ -100,26 +101,26 @@ def delOf : Queue.Out → List FW
   | .batch b => [FW.qdel b]
   | _ => []
 
-theorem produce_ask (c : Cfg) (n : Node) (h : asksSequencer c n = true) :
-    produce c n =
+theorem produce_ask (c : Cfg) (n : Node) (ex : ExecResp) (h : asksSequencer c n = true) :
+    produce c n ex =
       ({ n with prod := (publish c.p n.prod (.batch (batchOf (Queue.getNext key c.qc n.q c.qc.id).2)
-                    (c.p.genesisTime + (n.tick + 1) * 1000) []) .ok).1,
+                    (c.p.genesisTime + (n.tick + 1) * 1000) []) ex).1,
                 q := (Queue.getNext key c.qc n.q c.qc.id).1, tick := n.tick + 1 },
        delOf (Queue.getNext key c.qc n.q c.qc.id).2 ++
          (publish c.p n.prod (.batch (batchOf (Queue.getNext key c.qc n.q c.qc.id).2)
-                    (c.p.genesisTime + (n.tick + 1) * 1000) []) .ok).2.1.map FW.st,
+                    (c.p.genesisTime + (n.tick + 1) * 1000) []) ex).2.1.map FW.st,
        (publish c.p n.prod (.batch (batchOf (Queue.getNext key c.qc n.q c.qc.id).2)
-                    (c.p.genesisTime + (n.tick + 1) * 1000) []) .ok).2.2) := by
+                    (c.p.genesisTime + (n.tick + 1) * 1000) []) ex).2.2) := by
   unfold produce
   simp only [h, ↓reduceIte]
   generalize Queue.getNext key c.qc n.q c.qc.id = r
   obtain ⟨q', out⟩ := r
   cases out <;> rfl
 
-theorem produce_noask (c : Cfg) (n : Node) (h : asksSequencer c n = false) :
-    produce c n =
-      ({ n with prod := (publish c.p n.prod .absent .ok).1, tick := n.tick + 1 },
-       (publish c.p n.prod .absent .ok).2.1.map FW.st, (publish c.p n.prod .absent .ok).2.2) := by
+theorem produce_noask (c : Cfg) (n : Node) (ex : ExecResp) (h : asksSequencer c n = false) :
+    produce c n ex =
+      ({ n with prod := (publish c.p n.prod .absent ex).1, tick := n.tick + 1 },
+       (publish c.p n.prod .absent ex).2.1.map FW.st, (publish c.p n.prod .absent ex).2.2) := by
   unfold produce
   simp only [h, Bool.false_eq_true, ↓reduceIte]
 
@@ -139,10 +140,10 @@ delete), the producer afterwards, and the durable view at every crash point `j` 
 theorem produce_cases {c : Cfg} {n : Node} (hsg : c.p.signerAddr = c.p.proposerAddr)
     (hl : Live c.p n.prod) (hs : Synced c.p n.prod) (hw : WmOK n.prod.store)
     (hfe : n.prod.store.state = none → blockTxs n.prod.store c.p.initialHeight = [])
-    (htb : TimeBound (bound c n.tick) n.prod.store) :
+    (htb : TimeBound (bound c n.tick) n.prod.store) (ex : ExecResp) :
     ∃ (P' : Producer.Node) (sws : List SW) (pre : List FW) (q' : Queue.St) (T : List Bytes),
-      (produce c n).1 = { n with prod := P', q := q', tick := n.tick + 1 } ∧
-      (produce c n).2.1 = pre ++ sws.map FW.st ∧
+      (produce c n ex).1 = { n with prod := P', q := q', tick := n.tick + 1 } ∧
+      (produce c n ex).2.1 = pre ++ sws.map FW.st ∧
       P'.store = n.prod.store.applyAll sws ∧ Live c.p P' ∧ Synced c.p P' ∧ WmOK P'.store ∧
       (∀ j, DInv c.p (n.prod.store.applyAll (sws.take j))) ∧
       (∀ w ∈ sws, WTime (bound c (n.tick + 1)) w) ∧
@@ -159,20 +160,20 @@ theorem produce_cases {c : Cfg} {n : Node} (hsg : c.p.signerAddr = c.p.proposerA
   have hbb : bound c n.tick ≤ bound c (n.tick + 1) := by unfold bound; omega
   -- facts common to every answer
   have common : ∀ (resp : SeqResp),
-      (publish c.p n.prod resp .ok).1.store = n.prod.store.applyAll (publish c.p n.prod resp .ok).2.1 ∧
-      Live c.p (publish c.p n.prod resp .ok).1 ∧ Synced c.p (publish c.p n.prod resp .ok).1 ∧
-      WmOK (publish c.p n.prod resp .ok).1.store ∧
-      (∀ j, DInv c.p (n.prod.store.applyAll ((publish c.p n.prod resp .ok).2.1.take j))) := by
+      (publish c.p n.prod resp ex).1.store = n.prod.store.applyAll (publish c.p n.prod resp ex).2.1 ∧
+      Live c.p (publish c.p n.prod resp ex).1 ∧ Synced c.p (publish c.p n.prod resp ex).1 ∧
+      WmOK (publish c.p n.prod resp ex).1.store ∧
+      (∀ j, DInv c.p (n.prod.store.applyAll ((publish c.p n.prod resp ex).2.1.take j))) := by
     intro resp
-    obtain ⟨s1, s2, s3⟩ := publish_synced hl hs hw resp .ok
-    exact ⟨s3, publish_live hl resp .ok, s1, s2, fun j => (publish_prefix hl hs hw resp .ok j).2⟩
+    obtain ⟨s1, s2, s3⟩ := publish_synced hl hs hw resp ex
+    exact ⟨s3, publish_live hl resp ex, s1, s2, fun j => (publish_prefix hl hs hw resp ex j).2⟩
   -- a step that writes nothing
-  have idle : ∀ (resp : SeqResp), (publish c.p n.prod resp .ok).2.1 = [] →
-      (∀ w ∈ (publish c.p n.prod resp .ok).2.1, WTime (bound c (n.tick + 1)) w) ∧
-      (∀ j, j ≤ 1 → durAll c.p (n.prod.store.applyAll ((publish c.p n.prod resp .ok).2.1.take j)) = durAll c.p n.prod.store) ∧
-      (∀ j, 2 ≤ j → durAll c.p (n.prod.store.applyAll ((publish c.p n.prod resp .ok).2.1.take j)) = durAll c.p n.prod.store ++ []) ∧
-      (∀ j, (n.prod.store.applyAll ((publish c.p n.prod resp .ok).2.1.take j)).state = none →
-        blockTxs (n.prod.store.applyAll ((publish c.p n.prod resp .ok).2.1.take j)) c.p.initialHeight = []) := by
+  have idle : ∀ (resp : SeqResp), (publish c.p n.prod resp ex).2.1 = [] →
+      (∀ w ∈ (publish c.p n.prod resp ex).2.1, WTime (bound c (n.tick + 1)) w) ∧
+      (∀ j, j ≤ 1 → durAll c.p (n.prod.store.applyAll ((publish c.p n.prod resp ex).2.1.take j)) = durAll c.p n.prod.store) ∧
+      (∀ j, 2 ≤ j → durAll c.p (n.prod.store.applyAll ((publish c.p n.prod resp ex).2.1.take j)) = durAll c.p n.prod.store ++ []) ∧
+      (∀ j, (n.prod.store.applyAll ((publish c.p n.prod resp ex).2.1.take j)).state = none →
+        blockTxs (n.prod.store.applyAll ((publish c.p n.prod resp ex).2.1.take j)) c.p.initialHeight = []) := by
     intro resp h0
     rw [h0]
     refine ⟨by simp, fun j _ => by simp [Store.applyAll], fun j _ => by simp [Store.applyAll], fun j hn => ?_⟩
@@ -180,13 +181,13 @@ theorem produce_cases {c : Cfg} {n : Node} (hsg : c.p.signerAddr = c.p.proposerA
     exact hfe hn
   -- a step that commits the block waiting at `height + 1`
   have pend : ∀ (resp : SeqResp) (pb : Block), n.prod.store.getBlock (n.prod.store.height + 1) = some pb →
-      (∀ w ∈ (publish c.p n.prod resp .ok).2.1, WTime (bound c (n.tick + 1)) w) ∧
-      (∀ j, j ≤ 1 → durAll c.p (n.prod.store.applyAll ((publish c.p n.prod resp .ok).2.1.take j)) = durAll c.p n.prod.store) ∧
-      (∀ j, 2 ≤ j → durAll c.p (n.prod.store.applyAll ((publish c.p n.prod resp .ok).2.1.take j)) = durAll c.p n.prod.store ++ []) ∧
-      (∀ j, (n.prod.store.applyAll ((publish c.p n.prod resp .ok).2.1.take j)).state = none →
-        blockTxs (n.prod.store.applyAll ((publish c.p n.prod resp .ok).2.1.take j)) c.p.initialHeight = []) := by
+      (∀ w ∈ (publish c.p n.prod resp ex).2.1, WTime (bound c (n.tick + 1)) w) ∧
+      (∀ j, j ≤ 1 → durAll c.p (n.prod.store.applyAll ((publish c.p n.prod resp ex).2.1.take j)) = durAll c.p n.prod.store) ∧
+      (∀ j, 2 ≤ j → durAll c.p (n.prod.store.applyAll ((publish c.p n.prod resp ex).2.1.take j)) = durAll c.p n.prod.store ++ []) ∧
+      (∀ j, (n.prod.store.applyAll ((publish c.p n.prod resp ex).2.1.take j)).state = none →
+        blockTxs (n.prod.store.applyAll ((publish c.p n.prod resp ex).2.1.take j)) c.p.initialHeight = []) := by
     intro resp pb hpb
-    rcases (publish_tx hi hsg [] _ (Nat.le_refl _) |>.1) pb hpb resp with ⟨_, a2⟩ | ⟨fb, st, b1, b2, b3, b4, _⟩
+    rcases (publish_tx hi hsg [] _ (Nat.le_refl _) ex |>.1) pb hpb resp with ⟨_, a2⟩ | ⟨_, fb, st, b1, b2, b3, b4, _⟩
     · exact idle resp a2
     · rw [b4]
       have hT : durPend c.p n.prod.store = fb.data.txs := by
@@ -208,20 +209,20 @@ theorem produce_cases {c : Cfg} {n : Node} (hsg : c.p.signerAddr = c.p.proposerA
     unfold asksSequencer at hask'
     simp only [Bool.and_eq_true, Bool.not_eq_true', Option.isNone_iff_eq_none] at hask'
     obtain ⟨⟨hnr, hprev⟩, hnone⟩ := hask'
-    rw [produce_ask c n hask]
+    rw [produce_ask c n ex hask]
     have hτ : n.prod.lastState.lastTime ≤ c.p.genesisTime + (n.tick + 1) * 1000 := by
       exact Nat.le_trans (lastTime_le (c := c) hi htb) hbb
     have hpendNil : durPend c.p n.prod.store = [] := by
       unfold durPend blockTxs; rw [hH, hnone]
     have fresh : ∀ T,
-        (∀ w ∈ (publish c.p n.prod (.batch T (c.p.genesisTime + (n.tick + 1) * 1000) []) .ok).2.1, WTime (bound c (n.tick + 1)) w) ∧
-        2 ≤ (publish c.p n.prod (.batch T (c.p.genesisTime + (n.tick + 1) * 1000) []) .ok).2.1.length ∧
-        (∀ j, j ≤ 1 → durAll c.p (n.prod.store.applyAll ((publish c.p n.prod (.batch T (c.p.genesisTime + (n.tick + 1) * 1000) []) .ok).2.1.take j)) = durAll c.p n.prod.store) ∧
-        (∀ j, 2 ≤ j → durAll c.p (n.prod.store.applyAll ((publish c.p n.prod (.batch T (c.p.genesisTime + (n.tick + 1) * 1000) []) .ok).2.1.take j)) = durAll c.p n.prod.store ++ T) ∧
-        (∀ j, (n.prod.store.applyAll ((publish c.p n.prod (.batch T (c.p.genesisTime + (n.tick + 1) * 1000) []) .ok).2.1.take j)).state = none →
-          blockTxs (n.prod.store.applyAll ((publish c.p n.prod (.batch T (c.p.genesisTime + (n.tick + 1) * 1000) []) .ok).2.1.take j)) c.p.initialHeight = []) := by
+        (∀ w ∈ (publish c.p n.prod (.batch T (c.p.genesisTime + (n.tick + 1) * 1000) []) ex).2.1, WTime (bound c (n.tick + 1)) w) ∧
+        2 ≤ (publish c.p n.prod (.batch T (c.p.genesisTime + (n.tick + 1) * 1000) []) ex).2.1.length ∧
+        (∀ j, j ≤ 1 → durAll c.p (n.prod.store.applyAll ((publish c.p n.prod (.batch T (c.p.genesisTime + (n.tick + 1) * 1000) []) ex).2.1.take j)) = durAll c.p n.prod.store) ∧
+        (∀ j, 2 ≤ j → durAll c.p (n.prod.store.applyAll ((publish c.p n.prod (.batch T (c.p.genesisTime + (n.tick + 1) * 1000) []) ex).2.1.take j)) = durAll c.p n.prod.store ++ T) ∧
+        (∀ j, (n.prod.store.applyAll ((publish c.p n.prod (.batch T (c.p.genesisTime + (n.tick + 1) * 1000) []) ex).2.1.take j)).state = none →
+          blockTxs (n.prod.store.applyAll ((publish c.p n.prod (.batch T (c.p.genesisTime + (n.tick + 1) * 1000) []) ex).2.1.take j)) c.p.initialHeight = []) := by
       intro T
-      obtain ⟨v, eb, e1, e2, hsh, _⟩ := (publish_tx hi hsg T _ hτ).2 hnone hnr hprev
+      obtain ⟨v, eb, e1, e2, hsh, _⟩ := (publish_tx hi hsg T _ hτ ex).2 hnone hnr hprev
       -- with no state saved a block is stored at the initial height: impossible here
       have hstate : n.prod.store.state ≠ none := by
         intro hn
@@ -245,7 +246,7 @@ theorem produce_cases {c : Cfg} {n : Node} (hsg : c.p.signerAddr = c.p.proposerA
           fun j hj => (fresh_cuts hH hpendNil hab e1 tail ht j).2.1 hj, fun j hn => ?_⟩
         exact absurd ((fresh_cuts hH hpendNil hab e1 tail ht j).2.2 hn) hstate
       have hts : bound c (n.tick + 1) = c.p.genesisTime + (n.tick + 1) * 1000 := rfl
-      rcases hsh with hsh | ⟨fb, st, f1, f2, f3, hsh⟩
+      rcases hsh with hsh | ⟨_, fb, st, f1, f2, f3, hsh⟩
       · rw [hsh]
         obtain ⟨t1, t2, t3⟩ := htail [] (Or.inl rfl)
         refine ⟨?_, by simp, by simpa using t1, by simpa using t2, by simpa using t3⟩
@@ -280,11 +281,11 @@ theorem produce_cases {c : Cfg} {n : Node} (hsg : c.p.signerAddr = c.p.proposerA
       obtain ⟨f1, f2, f3, f4, f5⟩ := fresh b
       exact ⟨_, _, [FW.qdel b], _, b, rfl, rfl, c1, c2, c3, c4, c5, f1, Or.inr ⟨b, rest, rfl, hm, rfl, rfl, f2⟩, f3, f4, f5⟩
   · have hask' : asksSequencer c n = false := by simpa using hask
-    rw [produce_noask c n hask']
+    rw [produce_noask c n ex hask']
     obtain ⟨c1, c2, c3, c4, c5⟩ := common .absent
     cases hpb : n.prod.store.getBlock (n.prod.store.height + 1) with
     | none =>
-      obtain ⟨_, a2⟩ := publish_absent_none c.p n.prod hpb
+      obtain ⟨_, a2⟩ := publish_absent_none c.p n.prod ex hpb
       obtain ⟨f1, f3, f4, f5⟩ := idle .absent a2
       exact ⟨_, _, [], n.q, [], rfl, by simp, c1, c2, c3, c4, c5, f1, Or.inl ⟨rfl, rfl, rfl⟩, f3, f4, f5⟩
     | some pb =>
